@@ -28,6 +28,7 @@ From RM Require Import Model.EncObjCarry Proofs.EncObjTimes Proofs.EncObjectsRT.
 From RM Require Import Model.EncTimingSpec Proofs.ControlPointsFacts Proofs.EncTimingParse
   Proofs.EncCollect Proofs.EncGroups Proofs.EncTimingInv Proofs.EncTimingRT Proofs.EncTimingExample Proofs.EncTimingImage
   Proofs.TimingPointsValues.
+From RM Require Import Proofs.Enc2Values Proofs.Enc2Samples Proofs.Enc2Float Proofs.Enc2Timing Proofs.Enc2Examples.
 From RM Require Import Gen.Generated.
 Open Scope Z_scope.
 
@@ -434,6 +435,78 @@ Theorem C02_timing_round_trip_example :
   t02d_conclusion fmt_f64 fmt_f32 fmt_int g_taiko t02d_text.
 Proof. exact t02d_example_round_trip. Qed.
 Print Assumptions C02_timing_round_trip_example.
+
+(* ---------- T02d on decoded maps: the invariants discharged ---------- *)
+
+(* every control point of every decoded map (any input): beat length / slider velocity / scroll
+   speed within their clamps, sample volume within [0, 100], a real bank, custom index and time
+   signature within the i32 limits, every time within the parse limits *)
+Theorem C02_decoded_control_point_limits :
+  forall dist_of lines m, decode_beatmap dist_of lines = Done m ->
+  let c := hov_control_points (bmv_ho m) in
+  Forall lim_tp (cp_timing c) /\ Forall lim_dp (cp_difficulty c) /\
+  Forall lim_ep (cp_effect c) /\ Forall lim_sp (cp_sample c).
+Proof. exact decoded_cp_lims. Qed.
+Print Assumptions C02_decoded_control_point_limits.
+
+(* the beat-length field of an inherited line, -100 / sv, is within the parse limits for every
+   velocity within its clamp; so is every clamped beat length *)
+Theorem C02_written_beat_fields_within_limits :
+  (forall sv, in_range sv_lo sv_hi sv -> in_lim64 (D.div f64_m100 sv) = true) /\
+  (forall bl, in_range bl_lo bl_hi bl -> in_lim64 bl = true).
+Proof. exact (conj m100_div_in_lim beat_len_in_lim). Qed.
+Print Assumptions C02_written_beat_fields_within_limits.
+
+(* hence [cp_values_good] and "every written record is within the parse limits" ([wrec_ok]) hold of
+   every decoded map outside D12 (scroll_follows_sv) and D26 / D32 (sample_times_ok: no sample
+   point collected from a hit object lies beyond the parse limit) *)
+Theorem C02_decoded_timing_invariants :
+  forall dist_of events_of lines m c mode,
+  Forall no_lf_line lines -> decode_beatmap dist_of lines = Done m ->
+  enc_control_points dist_of events_of m = Done c ->
+  scroll_follows_sv mode c = true -> sample_times_ok c = true ->
+  cp_values_good mode (hov_control_points (bmv_ho m)) /\ forallb wrec_ok (enc_records c) = true.
+Proof. exact decoded_rt_invariants. Qed.
+Print Assumptions C02_decoded_timing_invariants.
+
+(* T02d for decoded maps.  FULL statement intended: no hypothesis beyond the recorded classes.
+   PROVED: under [rt_classes] -- times separated (D28 / D8), values separated (D27), scroll speed
+   following slider velocity (D12), sample-point times within the limits (D26 / D32) -- which are
+   all refuted by decodable inputs, and the float fact [svs_round_trip] (every stored velocity
+   survives -100/sv -> 100/-x).  [svs_round_trip] is NOT a recorded class: it is false for some
+   velocities in [0.1, 10] (C02_sv_round_trips_refuted) but no velocity in the decoder's image
+   (clamp of 100 / -x for a parsed x) is known to violate it; not mechanised (a number-theoretic
+   argument about the odd part of 100, see the status comment). *)
+Theorem C02_timing_round_trip_decoded_partial :
+  forall dist_of events_of fmt_f64 fmt_f32 fmt_int,
+  fmt_ok fmt_f64 fmt_f32 fmt_int -> no_leading_zero fmt_int ->
+  forall lines m c g,
+  Forall no_lf_line lines -> decode_beatmap dist_of lines = Done m ->
+  enc_control_points dist_of events_of m = Done c ->
+  rt_classes (tpg_mode g) c = true -> svs_round_trip c = true ->
+  let c0 := hov_control_points (bmv_ho m) in
+  exists ls c',
+    enc_timing_points dist_of events_of m = Done (header_tok SecTimingPoints :: ls) /\
+    tp_decode g (map (render fmt_f64 fmt_f32 fmt_int) ls) = Done (c', map (fun _ => Ok) ls) /\
+    cp_timing c' = cp_timing c0 /\
+    (forall t, sv_at c' t = sv_at c0 t) /\
+    (forall t, kiai_at c' t = kiai_at c0 t) /\
+    (forall t, scroll_at c' t = scroll_at c0 t).
+Proof. exact decoded_timing_round_trip_classes. Qed.
+Print Assumptions C02_timing_round_trip_decoded_partial.
+
+(* non-vacuity: a decoded taiko map with same-time groups, kiai and several velocities *)
+Example C02_rt_classes_example :
+  match decode_beatmap stub_dist (lines_of_text t02d_text) with
+  | Done m =>
+      match enc_control_points stub_dist stub_events m with
+      | Done c => rt_classes (tpg_mode g_taiko) c = true /\ svs_round_trip c = true /\
+                  length (cp_difficulty c) = 5%nat /\ length (enc_records c) = 7%nat
+      | _ => False
+      end
+  | _ => False
+  end.
+Proof. exact rt_classes_example. Qed.
 
 (* the side condition sv_round_trips is not a theorem about all velocities in [0.1, 10] *)
 Theorem C02_sv_round_trips_refuted :
